@@ -23,10 +23,43 @@ type CV struct {
 	Tag int            `json:"tag,omitempty"`
 	P   int            `json:"p,omitempty"`
 	M   map[string]*CV `json:"m,omitempty"`
+	MT  int            `json:"mt,omitempty"` // map: 0 map[string]any, 1 map[string]string (every value a str)
 }
 
+// unregistered types ("other", by tag): 0 S0, 1 S1 (structs), 2 MyStr (named string),
+// 3 MyInt (named int), 4 *S0, 5 *S1. Payload p = 0 is the zero value of the type.
 type S0 struct{ A int }
 type S1 struct{ B int }
+type MyStr string
+type MyInt int
+
+const nOtherTags = 6
+
+func otherToGo(tag, p int) any {
+	switch tag {
+	case 0:
+		return S0{A: p}
+	case 1:
+		return S1{B: p}
+	case 2:
+		if p == 0 {
+			return MyStr("")
+		}
+		return MyStr(fmt.Sprintf("s%d", p))
+	case 3:
+		return MyInt(p)
+	case 4:
+		if p == 0 {
+			return (*S0)(nil)
+		}
+		return &S0{A: p}
+	default:
+		if p == 0 {
+			return (*S1)(nil)
+		}
+		return &S1{B: p}
+	}
+}
 
 func (v *CV) toGo() any {
 	switch v.K {
@@ -46,11 +79,15 @@ func (v *CV) toGo() any {
 	case "nil":
 		return nil
 	case "other":
-		if v.Tag == 0 {
-			return S0{A: v.P}
-		}
-		return S1{B: v.P}
+		return otherToGo(v.Tag, v.P)
 	case "map":
+		if v.MT == 1 {
+			m := make(map[string]string, len(v.M))
+			for k, e := range v.M {
+				m[k] = e.S
+			}
+			return m
+		}
 		m := make(map[string]any, len(v.M))
 		for k, e := range v.M {
 			m[k] = e.toGo()
@@ -82,6 +119,32 @@ func fromGo(x any) *CV {
 		return &CV{K: "other", Tag: 0, P: t.A}
 	case S1:
 		return &CV{K: "other", Tag: 1, P: t.B}
+	case MyStr:
+		p := 0
+		if t != "" {
+			if _, err := fmt.Sscanf(string(t), "s%d", &p); err != nil {
+				p = -1
+			}
+		}
+		return &CV{K: "other", Tag: 2, P: p}
+	case MyInt:
+		return &CV{K: "other", Tag: 3, P: int(t)}
+	case *S0:
+		if t == nil {
+			return &CV{K: "other", Tag: 4, P: 0}
+		}
+		return &CV{K: "other", Tag: 4, P: t.A}
+	case *S1:
+		if t == nil {
+			return &CV{K: "other", Tag: 5, P: 0}
+		}
+		return &CV{K: "other", Tag: 5, P: t.B}
+	case map[string]string:
+		m := map[string]*CV{}
+		for k, e := range t {
+			m[k] = &CV{K: "str", S: e}
+		}
+		return &CV{K: "map", MT: 1, M: m}
 	case map[string]any:
 		m := map[string]*CV{}
 		for k, e := range t {
@@ -101,7 +164,11 @@ func (v *CV) coq() string {
 	case "nil":
 		return "CNil"
 	case "other":
-		return lib.CoqApp("COther", lib.CoqN(uint64(v.Tag)), lib.CoqN(uint64(v.P)))
+		p := v.P
+		if p < 0 {
+			p = 999999
+		}
+		return lib.CoqApp("COther", lib.CoqN(uint64(v.Tag)), lib.CoqN(uint64(p)))
 	case "map":
 		keys := make([]string, 0, len(v.M))
 		for k := range v.M {
@@ -112,7 +179,7 @@ func (v *CV) coq() string {
 		for i, k := range keys {
 			items[i] = lib.CoqPair(lib.CoqStr(k), v.M[k].coq())
 		}
-		return lib.CoqApp("CMap", lib.CoqList(items))
+		return lib.CoqApp("CMap", lib.CoqN(uint64(v.MT)), lib.CoqList(items))
 	}
 	panic("bad CV")
 }
@@ -172,6 +239,16 @@ func concatGo(chunks []*CV) (o Obs) {
 			out, err = concatTyped[S0](vals)
 		case S1:
 			out, err = concatTyped[S1](vals)
+		case MyStr:
+			out, err = concatTyped[MyStr](vals)
+		case MyInt:
+			out, err = concatTyped[MyInt](vals)
+		case *S0:
+			out, err = concatTyped[*S0](vals)
+		case *S1:
+			out, err = concatTyped[*S1](vals)
+		case map[string]string:
+			out, err = concatTyped[map[string]string](vals)
 		case map[string]any:
 			out, err = concatTyped[map[string]any](vals)
 		default:
@@ -228,57 +305,85 @@ func normalize(v *CV) *CV {
 var keyPool = []string{"a", "b", "c", "k1", "k2"}
 var strPool = []string{"", "x", "yz", "hello ", "W", "", "0"}
 
-func fixBool(v *CV) *CV {
-	if v.K == "num" && v.Kind == 2 {
-		v.Z = v.Z & 1
-	}
-	return v
-}
+// type descriptors of the values that may sit under a map key
+const (
+	tdStr = iota
+	tdInt
+	tdInt64
+	tdBool
+	tdFloat
+	tdS0
+	tdS1
+	tdMyStr
+	tdMyInt
+	tdPS0
+	tdPS1
+	tdMapAny
+	tdMapStr
+	tdNil
+	nTD
+)
 
-func genLeaf(r *lib.Rng, ty int) *CV {
-	switch ty {
-	case 0:
+// same reflect.Kind, different Go type
+var sibling = map[int]int{tdStr: tdMyStr, tdMyStr: tdStr, tdInt: tdMyInt, tdMyInt: tdInt, tdS0: tdS1, tdS1: tdS0,
+	tdPS0: tdPS1, tdPS1: tdPS0, tdMapAny: tdMapStr, tdMapStr: tdMapAny}
+
+var tdNames = []string{"string", "int", "int64", "bool", "float64", "S0", "S1", "MyStr", "MyInt", "*S0", "*S1",
+	"map[string]any", "map[string]string", "nil"}
+
+func genVal(r *lib.Rng, td, depth int) *CV {
+	payload := []int{0, 0, 1, 2}[r.Intn(4)]
+	switch td {
+	case tdStr:
 		return &CV{K: "str", S: r.Pick(strPool)}
-	case 1:
-		return fixBool(&CV{K: "num", Kind: r.Intn(4), Z: int64(r.Range(-2, 3))})
-	case 2:
-		return &CV{K: "other", Tag: r.Intn(2), P: []int{0, 0, 1, 2}[r.Intn(4)]}
-	default:
-		return &CV{K: "nil"}
+	case tdInt, tdInt64, tdFloat:
+		return &CV{K: "num", Kind: map[int]int{tdInt: 0, tdInt64: 1, tdFloat: 3}[td], Z: int64(r.Range(-2, 3))}
+	case tdBool:
+		return &CV{K: "num", Kind: 2, Z: int64(r.Intn(2))}
+	case tdS0, tdS1, tdMyStr, tdMyInt, tdPS0, tdPS1:
+		return &CV{K: "other", Tag: map[int]int{tdS0: 0, tdS1: 1, tdMyStr: 2, tdMyInt: 3, tdPS0: 4, tdPS1: 5}[td], P: payload}
+	case tdMapAny:
+		if depth <= 0 {
+			return &CV{K: "map", M: map[string]*CV{}}
+		}
+		return genMap(r, depth-1, map[string]int{})
+	case tdMapStr:
+		m := map[string]*CV{}
+		for j, nk := 0, r.Intn(3); j < nk; j++ {
+			m[r.Pick(keyPool)] = &CV{K: "str", S: r.Pick(strPool)}
+		}
+		return &CV{K: "map", MT: 1, M: m}
 	}
+	return &CV{K: "nil"}
 }
 
+// genMap: a map[string]any chunk. Values are mostly type-stable per key (so that
+// concatenation usually succeeds); a deliberate clash picks, half of the time, a type of
+// the same reflect.Kind (string vs named string, S0 vs S1, *S0 vs *S1, map[string]any vs
+// map[string]string, int vs named int).
 func genMap(r *lib.Rng, depth int, keyTypes map[string]int) *CV {
 	m := map[string]*CV{}
 	nk := r.Intn(4)
 	for j := 0; j < nk; j++ {
 		k := r.Pick(keyPool)
-		// mostly type-stable per key (so that concatenation usually succeeds),
-		// sometimes a deliberate clash, sometimes nil
-		ty, seen := keyTypes[k]
-		if !seen || r.Chance(1, 12) {
-			ty = r.Intn(5)
-			if !seen {
-				keyTypes[k] = ty
+		td, seen := keyTypes[k]
+		if !seen {
+			td = r.Intn(nTD)
+			if r.Chance(1, 3) {
+				td = []int{tdStr, tdMapAny, tdInt}[r.Intn(3)]
+			}
+			keyTypes[k] = td
+		} else if r.Chance(1, 12) {
+			if sib, ok := sibling[td]; ok && r.Chance(1, 2) {
+				td = sib
+			} else {
+				td = r.Intn(nTD)
 			}
 		}
-		switch {
-		case r.Chance(1, 8):
-			m[k] = &CV{K: "nil"}
-		case ty == 4 && depth > 0:
-			m[k] = genMap(r, depth-1, map[string]int{})
-		case ty == 4:
-			m[k] = genLeaf(r, 0)
-		default:
-			m[k] = genLeaf(r, ty)
-			if ty == 1 { // keep the numeric kind stable per key
-				m[k].Kind = len(k) % 4
-				fixBool(m[k])
-			}
-			if ty == 2 {
-				m[k].Tag = len(k) % 2
-			}
+		if r.Chance(1, 8) {
+			td = tdNil
 		}
+		m[k] = genVal(r, td, depth)
 	}
 	return &CV{K: "map", M: m}
 }
@@ -292,24 +397,16 @@ func genGeneric(r *lib.Rng, tier string) *Case {
 	}
 	n := r.Intn(maxChunks + 1)
 	c := &Case{Kind: "generic"}
-	top := r.Intn(10)
 	keyTypes := map[string]int{}
-	kind, tag := r.Intn(4), r.Intn(2)
+	top := tdMapAny
+	if r.Chance(2, 5) {
+		top = r.Intn(nTD - 1) // every type but nil
+	}
 	for i := 0; i < n; i++ {
-		switch {
-		case top < 6:
+		if top == tdMapAny {
 			c.Chunks = append(c.Chunks, genMap(r, depth, keyTypes))
-		case top < 8:
-			c.Chunks = append(c.Chunks, genLeaf(r, 0))
-		case top < 9:
-			v := genLeaf(r, 1)
-			v.Kind = kind
-			fixBool(v)
-			c.Chunks = append(c.Chunks, v)
-		default:
-			v := genLeaf(r, 2)
-			v.Tag = tag
-			c.Chunks = append(c.Chunks, v)
+		} else {
+			c.Chunks = append(c.Chunks, genVal(r, top, depth))
 		}
 	}
 	return c
@@ -352,6 +449,7 @@ func (engine) Run(ci any) lib.Result {
 	if len(c.Chunks) > 0 {
 		res.Tags = append(res.Tags, "top:"+c.Chunks[0].K)
 	}
+	res.Tags = append(res.Tags, clashTags(c.Chunks)...)
 	res.Nontrivial = len(c.Chunks) >= 2
 	res.CoqTerm = lib.CoqApp("CaseGen", lib.CoqList(mapCoq(c.Chunks)), o.coq())
 
@@ -362,26 +460,111 @@ func (engine) Run(ci any) lib.Result {
 		res.Sig = "generic-panic"
 	default:
 		for rep := 0; rep < 2; rep++ {
-			if o2 := concatGo(c.Chunks); !obsEqual(o, o2) {
-				res.Oracle = "non-deterministic result"
+			if o2 := concatGo(c.Chunks); o2.Class == "panic" {
+				res.Oracle = "concatenation panicked: " + o2.Msg
+				res.Sig = "generic-panic"
+			} else if !obsEqual(o, o2) && res.Oracle == "" {
+				res.Oracle = "non-deterministic result: " + js(o) + " vs " + js(o2)
 				res.Sig = "generic-nondet"
 			}
 		}
-		for split := 1; split < len(c.Chunks) && res.Oracle == ""; split++ {
-			pre := concatGo(c.Chunks[:split])
-			var o2 Obs
-			if pre.Class != "val" {
-				o2 = pre
-			} else {
-				o2 = concatGo(append([]*CV{pre.Val}, c.Chunks[split:]...))
-			}
-			if !obsEqual(o, o2) {
-				res.Oracle = fmt.Sprintf("re-chunking at %d changes the result: whole=%s split=%s", split, js(o), js(o2))
-				res.Sig = "generic-rechunk"
+		// re-chunking: concatenate any segment [i,j) first, splice the result in, concatenate again
+		n := len(c.Chunks)
+		for i := 0; i < n && res.Oracle == ""; i++ {
+			for j := i + 1; j <= n && res.Oracle == ""; j++ {
+				if i == 0 && j == n {
+					continue
+				}
+				sig := "generic-rechunk"
+				if i > 0 {
+					sig = "generic-rechunk-mid"
+				}
+				seg := concatGo(c.Chunks[i:j])
+				var o2 Obs
+				if seg.Class != "val" {
+					o2 = seg
+				} else {
+					spliced := append(append(append([]*CV{}, c.Chunks[:i]...), seg.Val), c.Chunks[j:]...)
+					o2 = concatGo(spliced)
+				}
+				if seg.Class == "panic" || o2.Class == "panic" {
+					res.Oracle = fmt.Sprintf("concatenation panicked when chunks [%d,%d) are concatenated first: %s%s", i, j, seg.Msg, o2.Msg)
+					res.Sig = "generic-panic"
+				} else if !obsEqual(o, o2) {
+					res.Oracle = fmt.Sprintf("concatenating chunks [%d,%d) first changes the result: whole=%s split=%s", i, j, js(o), js(o2))
+					res.Sig = sig
+				}
 			}
 		}
 	}
 	return res
+}
+
+// goTypeName: the Go type a CV stands for ("" for nil)
+func goTypeName(v *CV) string {
+	switch v.K {
+	case "str":
+		return "string"
+	case "num":
+		return []string{"int", "int64", "bool", "float64"}[v.Kind]
+	case "other":
+		return []string{"S0", "S1", "MyStr", "MyInt", "*S0", "*S1"}[v.Tag]
+	case "map":
+		if v.MT == 1 {
+			return "map[string]string"
+		}
+		return "map[string]any"
+	}
+	return ""
+}
+
+var kindOf = map[string]string{"string": "string", "MyStr": "string", "int": "int", "MyInt": "int", "S0": "struct", "S1": "struct",
+	"*S0": "ptr", "*S1": "ptr", "map[string]any": "map", "map[string]string": "map", "int64": "int64", "bool": "bool", "float64": "float64"}
+
+// clashTags reports whether some key (at any depth, following the first map per key) holds
+// values of different Go types, and whether two of them share a reflect.Kind.
+func clashTags(chunks []*CV) []string {
+	clash, same := false, false
+	var walk func(ms []*CV)
+	walk = func(ms []*CV) {
+		byKey := map[string][]*CV{}
+		for _, m := range ms {
+			if m == nil || m.K != "map" {
+				continue
+			}
+			for k, v := range m.M {
+				if v.K != "nil" {
+					byKey[k] = append(byKey[k], v)
+				}
+			}
+		}
+		for _, vs := range byKey {
+			var sub []*CV
+			for _, v := range vs {
+				if goTypeName(v) != goTypeName(vs[0]) {
+					clash = true
+					if kindOf[goTypeName(v)] == kindOf[goTypeName(vs[0])] {
+						same = true
+					}
+				}
+				if v.K == "map" && v.MT == 0 {
+					sub = append(sub, v)
+				}
+			}
+			if len(sub) > 1 {
+				walk(sub)
+			}
+		}
+	}
+	walk(chunks)
+	var out []string
+	if clash {
+		out = append(out, "feat:type-clash")
+	}
+	if same {
+		out = append(out, "feat:same-kind-clash")
+	}
+	return out
 }
 
 func mapCoq(vs []*CV) []string {
